@@ -413,6 +413,82 @@ def float_clock_stage(ctx, tu, rnd):
                     ctx.violation({'kind': 'ticking-clock', 'call': name}, {'started': started, 'duration': dur, 'readings': list(readings), 'result': got},
                                   'StopWatch.%s() under a clock that ticks on every reading returned %r; readings %s, started %r, duration %r' % (
                                       name, got, readings, started, dur))
+        # a clock that counts whole ticks and has been counting for a long time (a nanosecond counter past 2^53): the
+        # distances between readings are small whole numbers and come out exactly
+        tu.now = lambda: box[0]
+        for j in range(600 if ctx.quick else 12000):
+            start = rnd.choice([2 ** 53, 2 ** 53 + 1, 2 ** 60 + 7, 2 ** 63 - 5, 10 ** 18 + rnd.randint(0, 10 ** 6)])
+            d1, d2 = rnd.randint(0, 5), rnd.randint(0, 5)
+            dur = rnd.choice([0, 1, 3, None])
+            w = tu.StopWatch(dur)
+            box[0] = start
+            w.start()
+            box[0] = start + d1
+            problems = []
+            if w.elapsed() != d1:
+                problems.append('elapsed %r after %d ticks' % (w.elapsed(), d1))
+            if dur is not None and (w.expired() != (d1 > dur) or w.leftover() != max(0, dur - d1)):
+                problems.append('expired %r / leftover %r after %d ticks of %d' % (w.expired(), w.leftover(), d1, dur))
+            sp = w.split()
+            box[0] = start + d1 + d2
+            sp2 = w.split()
+            if (sp.elapsed, sp.length, sp2.elapsed, sp2.length) != (d1, d1, d1 + d2, d2):
+                problems.append('splits %r, %r after %d and %d more ticks' % (sp, sp2, d1, d2))
+            w.stop()
+            box[0] = start + d1 + d2 + 9
+            if w.elapsed() != d1 + d2:
+                problems.append('elapsed %r of a watch stopped after %d ticks' % (w.elapsed(), d1 + d2))
+            n += 1
+            for p in problems:
+                ctx.violation({'kind': 'large-readings', 'what': p.split(' ')[0]}, {'start': start, 'ticks': [d1, d2], 'duration': dur},
+                              'StopWatch under a whole-number clock started at %d: %s' % (start, p))
+        # (beyond the statement) someone looks at the watch while a call is reading the clock - another thread, or the
+        # clock function itself: a call takes effect after its reading, so the onlooker sees the watch as it was
+        seen = []
+        busy = [False]
+        wbox = [None]
+
+        def observing():
+            if not busy[0] and wbox[0] is not None:
+                busy[0] = True
+                try:
+                    seen.append(('elapsed', wbox[0].elapsed()))
+                except RuntimeError:
+                    seen.append(('RuntimeError', None))
+                except Exception as e:      # noqa
+                    seen.append(('EXC:' + type(e).__name__, None))
+                finally:
+                    busy[0] = False
+            return box[0]
+        tu.now = observing
+        for j in range(300 if ctx.quick else 6000):
+            w = tu.StopWatch(rnd.choice([None, 2]))
+            wbox[0] = None
+            box[0] = 10
+            w.start()
+            wbox[0] = w
+            t = 10
+            state, started, stopped = 'started', 10, None
+            for op in [rnd.choice(['stop', 'resume', 'restart', 'split', 'elapsed']) for _ in range(6)]:
+                if (op == 'resume' and state != 'stopped') or (op == 'split' and state != 'started'):
+                    continue
+                t += rnd.randint(0, 3)
+                box[0] = t
+                del seen[:]
+                getattr(w, op)()
+                want = ('elapsed', (t if state == 'started' else stopped) - started)
+                bad = [x for x in seen if x != want]
+                n += 1
+                if bad:
+                    ctx.beyond('StopWatch', {'kind': 'onlooker-during-clock-reading', 'call': op, 'state': state, 'sees': bad[0][0]},
+                               {'call': op, 'state_before': state, 'clock': t, 'started': started, 'stopped': stopped, 'seen': seen[:3]},
+                               'while %s() of a %s watch reads the clock, elapsed() gives %s; the watch as it was gives %s' % (op, state, bad[0], want))
+                if op == 'stop' and state == 'started':
+                    state, stopped = 'stopped', t
+                elif op == 'resume':
+                    state = 'started'       # the distance is measured from the last (re)start, the pause included
+                elif op == 'restart':
+                    state, started = 'started', t
     finally:
         tu.now = saved
     ctx.cov['evaluations'] += n
